@@ -207,6 +207,13 @@ impl<'a> BlockFilterHashesProcess<'a> {
                         }
                     })
                     .collect::<Vec<_>>();
+                // (the candidates come out of a std HashMap: fix their order for reproducible runs)
+                #[cfg(feature = "verif")]
+                let best_peers = {
+                    let mut best_peers = best_peers;
+                    best_peers.sort_by_key(|peer_index| peer_index.value());
+                    best_peers
+                };
                 let best_peer = best_peers
                     .choose(&mut rand::thread_rng())
                     .cloned()
